@@ -132,7 +132,9 @@ Theorem raise_closes_then_truncates : forall lim faults fixed fuel inrec p s tf 
   raise lim fixed (exec lim faults fixed fuel) inrec p s =
     match r with
     | (s1, ONorm) => handle_throw p s1
-    | (s1, OPanic p') => if inrec && negb fixed then (deviate 23 s1, OEscaped p') else handle_throw p' (with_regs_of s s1)
+    | (s1, OPanic p') =>
+        let s2 := restore_stacks (t_iter tf) (t_ref tf) s1 in     (* the deferred dropStacks *)
+        if inrec && negb fixed then (deviate 23 s2, OEscaped p') else handle_throw p' (with_regs_of s s2)
     | (s1, _) => (s1, OStuck)
     end /\
   (snd r = ONorm -> dv (fst r) = dv s ->
